@@ -192,7 +192,7 @@ CLAIMED["C18"] = dict(
 CLAIMED["C19"] = dict(
     text="Proof (Lean 4) on the simulator model for every machine set, queue, arguments and oracle: every filter setting returns exactly the unfiltered trace filtered by the observation-level predicate when the length cap does not bind, and a prefix of it when it does; "
          "the run is a function of (machines, queue, arguments, oracle); pick_next always terminates within pickMeasure+1 recursive calls; the returned event is never before the clock; a run never ends in one of the five BUG assertions, in backwards time, exhausted fuel or divergence, "
-         "and for packets-per-second limits >= 1 not in a division by zero (fix 4ed778e; exactly the limit 0 still divides by zero); iteration and length bounds are respected. Reproducibility of the real code (same seed twice, all filter combinations) and agreement with the model are checked on every generated run.",
+         "and for packets-per-second limits >= 1 not in a division by zero (fix 4ed778e; exactly the limit 0 still divides by zero); iteration and length bounds are respected. Reproducibility of the real code (same seed twice, all filter combinations) and agreement with the model are checked on every generated run. Totality with machines is a theorem too (C19_total, _queue, _raw, _returns; Proofs/SimNoFault*.lean): for validated machines on both sides, fractions in [0,1], a non-empty trace with times <= T, network delay d, a packets-per-second limit absent or >= 1, a cap of N >= 1 iterations (max_sim_iterations = N, or max_trace_length = N with both filters off) and the explicit guard (N+2) * span(N,T,d) <= Duration::MAX with span = T + 5d + 2N(N 48h + N 1s) + N(96h + d + N 1s) (satisfied e.g. up to N = 37650 for a 1 s trace), the run ends in NONE of the model's fault classes - checked-duration overflow, unwrap on None, a fault inside either framework (composes C01's potential argument and C04's slot invariant), machine id out of range, empty queue, invalid construction, BUG assertions, backwards time, fuel, divergence - for every oracle, stopping within N iterations; the key invariant is that a queued TunnelSent is at most k x 48 h old after k iterations, which bounds every aggregate delay and the clock polynomially; C19_total_guard_needed shows that some bound on the delay is necessary (5e27 ns overflows the 4 x delay multiple).",
     ref="7 (C19), 12.8",
     technique="Lean 4 projection/prefix/totality theorems on the simulator model + repeat-run and filter differential on the implementation + exact-trace differential correspondence",
     note=SIM_NOTE,
